@@ -23,7 +23,7 @@ use std::sync::{Arc, Barrier, Condvar, Mutex};
 use std::task::{Context, Poll, Wake, Waker};
 use std::time::{Duration, Instant};
 use vharness::sched::{self, Arrival};
-use vharness::stream::{NumEntry, Res, StreamCtl};
+use vharness::stream::{BigEntry, NumEntry, Res, StreamCtl};
 use vharness::{trace, util};
 
 const BUDGET: Duration = Duration::from_secs(10);
@@ -172,6 +172,24 @@ struct Scenario {
     /// fixed delay (µs) at named verification points for the whole scenario
     #[serde(default)]
     point_delay: HashMap<String, u64>,
+    /// typed queue of 16 KiB entries instead of 8-byte ones
+    #[serde(default)]
+    big: bool,
+    /// C04: after the producers have finished and the backlog has been written WITHOUT any flush
+    /// request, the stream becomes slow (`slow_us` per entry), `n` more entries are appended at once
+    /// and one flush is requested
+    #[serde(default)]
+    late_phase: Option<LatePhase>,
+    /// C05 (forget): no flush request before the last queue handle is dropped
+    #[serde(default)]
+    no_final_flush: bool,
+}
+
+#[derive(Deserialize, Clone, Debug)]
+struct LatePhase {
+    n: u64,
+    slow_us: u64,
+    settle_ms: u64,
 }
 
 #[derive(Deserialize, Clone, Debug)]
@@ -197,18 +215,22 @@ struct ReportBurst {
 enum Q {
     Typed(metrique_writer::sink::BackgroundQueue<NumEntry>),
     Boxed(BoxEntrySink),
+    /// typed queue of 16 KiB entries (scenario field `big`)
+    Big(metrique_writer::sink::BackgroundQueue<BigEntry>),
 }
 impl Q {
     fn append(&self, e: NumEntry) {
         match self {
             Q::Typed(q) => q.append(e),
             Q::Boxed(q) => q.append_any(e),
+            Q::Big(q) => q.append(BigEntry::new(e.0)),
         }
     }
     fn flush_async(&self) -> metrique_writer::sink::FlushWait {
         match self {
             Q::Typed(q) => q.flush_async(),
             Q::Boxed(q) => AnyEntrySink::flush_async(q),
+            Q::Big(q) => q.flush_async(),
         }
     }
 }
@@ -362,6 +384,7 @@ fn watched_drop_how(handle: metrique_writer::sink::BackgroundQueueJoinHandle, ct
     let done = Arc::new((Mutex::new(false), Condvar::new()));
     let d2 = done.clone();
     let t = std::thread::spawn(move || {
+        let ep = trace::epoch();
         trace::evi("DropStart", &[]);
         if unwind {
             // the handle's owner panics: the handle is dropped while this thread unwinds
@@ -372,7 +395,11 @@ fn watched_drop_how(handle: metrique_writer::sink::BackgroundQueueJoinHandle, ct
         } else {
             drop(handle);
         }
-        trace::evi("DropEnd", &[]);
+        // a drop that returns only after the harness has given up on it (DropTimeout) and moved
+        // on to the next scenario must not log into that scenario
+        if trace::epoch() == ep {
+            trace::evi("DropEnd", &[]);
+        }
         *d2.0.lock().unwrap() = true;
         d2.1.notify_all();
     });
@@ -649,7 +676,10 @@ fn run_scenario(sc: &Scenario) {
         builder = builder.shutdown_timeout(Duration::from_millis(ms));
     }
     SINK_FILTER.with(|f| *f.borrow_mut() = if GLOBAL_SNAP.get().is_some() { Some(sink_name.clone()) } else { None });
-    let (q, handle) = if sc.boxed {
+    let (q, handle) = if sc.big {
+        let (q, h) = builder.build::<BigEntry>(ctl.stream());
+        (Q::Big(q), h)
+    } else if sc.boxed {
         let (q, h) = builder.build_boxed(ctl.stream());
         (Q::Boxed(q), h)
     } else {
@@ -868,6 +898,16 @@ fn run_scenario(sc: &Scenario) {
                 drop(g);
                 trace::evi("AppEnd", &[("p", 6), ("e", e as i64)]);
             }
+            (Q::Big(tq), 1) => {
+                let _ = tq.append_on_drop(BigEntry::new(e)).into_entry();
+            }
+            (Q::Big(tq), 2) => tq.append_on_drop(BigEntry::new(e)).forget(),
+            (Q::Big(tq), _) => {
+                let g = tq.append_on_drop(BigEntry::new(e));
+                trace::evi("AppStart", &[("p", 6), ("e", e as i64)]);
+                drop(g);
+                trace::evi("AppEnd", &[("p", 6), ("e", e as i64)]);
+            }
             (Q::Boxed(bq), 1) => {
                 let _ = bq.append_on_drop(BoxEntry::new(NumEntry(e))).into_entry();
             }
@@ -916,6 +956,15 @@ fn run_scenario(sc: &Scenario) {
             }
             std::thread::sleep(Duration::from_micros(200));
         }
+    }
+    if let Some(lp) = &sc.late_phase {
+        std::thread::sleep(Duration::from_millis(lp.settle_ms));
+        ctl.slow(lp.slow_us);
+        for i in 1..=lp.n {
+            timed_append(&q, 8, 80000 + i);
+        }
+        do_flush(&q, 800);
+        ctl.slow(0);
     }
     if let Some(rb) = &sc.report_burst {
         // one failure, a quiet period, then a burst: the in-band report is rate limited
@@ -991,7 +1040,9 @@ fn run_scenario(sc: &Scenario) {
         "forget" => {
             handle.forget();
             trace::evi("Forget", &[]);
-            do_flush(&q, next_f(&fcount));
+            if !sc.no_final_flush {
+                do_flush(&q, next_f(&fcount));
+            }
             // a flush future that is created but never polled is not a queue handle
             let _held_unpolled = if sc.hold_unpolled_flush { Some(q.flush_async()) } else { None };
             drop(q);
@@ -1249,11 +1300,28 @@ fn run_sched(sc: &Sched) -> Value {
     ctrl.free_run();
     ctl.open_all();
     let t0 = Instant::now();
-    for t in threads {
-        let _ = t.join();
+    // everything must now terminate by itself: appends return (C09), flush requests complete (C04), the
+    // handle's drop returns (C05). A thread that does not finish within the budget is abandoned and the
+    // event `Hang` (consumed by no action of the specification) is logged.
+    let deadline = Instant::now() + BUDGET + BUDGET;
+    let mut hung = 0;
+    for t in threads.into_iter().chain(std::iter::once(hthread)) {
+        while !t.is_finished() && Instant::now() < deadline {
+            std::thread::sleep(Duration::from_millis(2));
+        }
+        if t.is_finished() {
+            let _ = t.join();
+        } else {
+            hung += 1;
+        }
     }
-    // if the schedule never dropped/forgot the handle, do it now (free running)
-    let _ = hthread.join();
+    if hung > 0 {
+        trace::evi("Hang", &[("threads", hung)]);
+        trace::set_epoch(u64::MAX);
+        let points = ctrl.take_points();
+        return json!({"id": sc.id, "executed": executed, "steps": sc.steps.len(), "drift": drift,
+                      "tail_ms": t0.elapsed().as_millis() as u64, "points": points.len()});
+    }
     drop(q);
     trace::evi("SinkDrop", &[("p", 0)]);
     let closed = ctl.wait_closed(BUDGET);
@@ -1307,9 +1375,15 @@ fn cmd_sched(a: &HashMap<String, String>) {
     let mut out = std::io::BufWriter::new(std::fs::File::create(util::arg_str(a, "out", "")).unwrap());
     let mut meta = std::io::BufWriter::new(std::fs::File::create(util::arg_str(a, "meta", "")).unwrap());
     let mut line = 1usize;
+    let mut hangs = 0;
+    let mut slow = 0;
     for v in scen {
         let sc: Sched = serde_json::from_value(v.clone()).unwrap();
+        let t_sched = Instant::now();
         let r = run_sched(&sc);
+        if t_sched.elapsed() > Duration::from_secs(8) {
+            slow += 1;
+        }
         let mut evs = trace::take();
         annotate_ranks(&mut evs);
         trace::append_ndjson(&mut out, &evs).unwrap();
@@ -1318,6 +1392,17 @@ fn cmd_sched(a: &HashMap<String, String>) {
         line += evs.len();
         serde_json::to_writer(&mut meta, &m).unwrap();
         meta.write_all(b"\n").unwrap();
+        if evs.iter().any(|e| e["ev"] == "Hang") {
+            hangs += 1;
+        }
+        {
+            if hangs >= 2 || slow >= 4 {
+                // every hang costs its whole budget (and leaves threads behind): the remaining
+                // schedules are not run, the recorded ones are judged as usual
+                eprintln!("bq sched: {hangs} schedules did not terminate, {slow} took more than 8 s (actors never reached their points): skipping the remaining ones");
+                break;
+            }
+        }
     }
     out.flush().unwrap();
     meta.flush().unwrap();
